@@ -8,7 +8,7 @@ from ..generic_instructions import RegisterUseDef, Global
 from ...utils.bitfun import encode_imm32
 from ...utils.tree import Tree
 from .registers import ArmRegister, Coreg, Coproc, RegisterSet, R11
-from .registers import R0, R1, R2
+from .registers import R0, R1, R2, SP
 from .arm_relocations import Imm24Relocation
 from .arm_relocations import LdrImm12Relocation, AdrImm12Relocation
 
@@ -471,6 +471,13 @@ class Push(ArmInstruction):
     reg_list = Operand("reg_list", RegisterSet)
     syntax = Syntax(["push", " ", reg_list])
 
+    def __init__(self, *args, **kwargs):
+        super().__init__(*args, **kwargs)
+        # The listed registers are stored, the stack pointer is adjusted:
+        regs = sorted(self.reg_list, key=lambda r: r.num)
+        self.extra_uses = list(self.extra_uses) + regs + [SP]
+        self.extra_defs = list(self.extra_defs) + [SP]
+
     def encode(self):
         tokens = self.get_tokens()
         tokens[0].cond = AL
@@ -482,6 +489,13 @@ class Push(ArmInstruction):
 class Pop(ArmInstruction):
     reg_list = Operand("reg_list", RegisterSet)
     syntax = Syntax(["pop", " ", reg_list])
+
+    def __init__(self, *args, **kwargs):
+        super().__init__(*args, **kwargs)
+        # The listed registers are loaded, the stack pointer is adjusted:
+        regs = sorted(self.reg_list, key=lambda r: r.num)
+        self.extra_uses = list(self.extra_uses) + [SP]
+        self.extra_defs = list(self.extra_defs) + regs + [SP]
 
     def encode(self):
         tokens = self.get_tokens()
